@@ -2,7 +2,10 @@
 // choices), baton scheduler over real goroutines, simulated network.
 package core
 
-import "fmt"
+import (
+	"fmt"
+	"time"
+)
 
 // SplitMix64 derives independent seeds: worker seed from run seed, episode seed
 // from worker seed.
@@ -132,4 +135,9 @@ func PatternBytes(tag byte, n int) []byte {
 		b[i] = 'a' + byte((x>>24)%26)
 	}
 	return b
+}
+
+// PickDur returns one of the given durations.
+func (t *Tape) PickDur(label string, opts ...time.Duration) time.Duration {
+	return opts[t.Choose(label, len(opts))]
 }
